@@ -114,7 +114,8 @@ def render_func(f, prog, plain):
         # defaults that cannot be encoded as argument values: a bare object() marker and an instance of a class without
         # a __repr__ of its own (their repr contains a memory address)
         sig += ", s1=_SENT, s2=_MARK"
-    out = [_decor(f, plain) + "def %s(%s):" % (f["name"], sig)]
+    # "wrapped_def": a plain functools.wraps decorator sits on top of the memento decorator (the module attribute is the wrapper)
+    out = [("@passthru\n" if f.get("wrapped_def") and not plain and f["kind"] != "plain" else "") + _decor(f, plain) + "def %s(%s):" % (f["name"], sig)]
     out.append("    sys.audit('vf.body', %r, {'x': x, 'k': k})" % f["name"])
     out.append("    acc = [[%r, %r, x, k]]" % (f["name"], f["lit"]))
     if "set_const" in f:
